@@ -138,14 +138,30 @@ class YncaApi:
         connection = None
         connection_check_event = threading.Event()
 
+        zone_replies_needed = 4
+
         def _connection_check_message_received(
             status: YncaProtocolStatus, subunit: str|None, function_: str|None, value: str|None
         ):
-            if subunit == Subunit.SYS and function_ == "MODELNAME" and value is not None:
-                result.modelname = value 
-                connection_check_event.set()
+            nonlocal zone_replies_needed
+
+            # Every AVAIL request gets a reply, the value or an error when the zone does not exist
             if function_ == "AVAIL" and subunit is not None:
                 result.zones.append(subunit)
+                zone_replies_needed -= 1
+            elif status is not YncaProtocolStatus.OK:
+                zone_replies_needed -= 1
+
+            # Replies come in request order, so only a modelname that arrives after the zone replies
+            # is the reply to our request. An earlier one is a (late) reply to a keep-alive of the connection
+            if (
+                subunit == Subunit.SYS
+                and function_ == "MODELNAME"
+                and value is not None
+                and zone_replies_needed <= 0
+            ):
+                result.modelname = value
+                connection_check_event.set()
 
         try:
             connection = YncaConnection.create_from_serial_url(self._serial_url)
